@@ -21,15 +21,84 @@ import (
 )
 
 // ---------- C16
-func c16(rng *rand.Rand) string {
+func c16(rng *rand.Rand) string { return c16G(rng, false) }
+
+// class of a mailmap case: some key is mapped twice or is both a source and a target (chained / conflicting mailmap)
+var mmChain bool
+
+// the same with a .mailmap file in the tree of the last commit (GeneratePeopleDict seeds the dictionary from it)
+func c16mm(rng *rand.Rand) string { return c16G(rng, true) }
+
+func c16G(rng *rand.Rand, withMailmap bool) string {
 	names := []string{"Ann", "ann", "Bob", "BOB", "carl", "", "Dee"}
 	mails := []string{"a@x", "A@X", "b@x", "c@x", "", "d@y"}
 	n := 1 + rng.Intn(8)
 	var commits []*object.Commit
 	st := memory.NewStorage()
 	repo, _ := git.Init(st, nil)
+	tree := &object.Tree{}
+	mailmapText := ""
+	if withMailmap {
+		proper := []string{"Annette", "Robert", "Carl C", "Dee"}
+		pmails := []string{"ann@corp", "bob@corp", "a@x", "d@y"}
+		var lines []string
+		mmChain = false
+		srcs, tgts := map[string]int{}, map[string]bool{}
+		note := func(src []string, tgt []string) {
+			for _, x := range src {
+				srcs[strings.ToLower(x)]++
+			}
+			for _, x := range tgt {
+				if x != "" {
+					tgts[strings.ToLower(x)] = true
+				}
+			}
+		}
+		defer func() {
+			for k, n := range srcs {
+				if n > 1 || tgts[k] {
+					mmChain = true // an address or name is mapped twice, or is both mapped away and mapped to
+				}
+			}
+		}()
+		for k := 1 + rng.Intn(4); k > 0; k-- {
+			pn, pm := proper[rng.Intn(len(proper))], pmails[rng.Intn(len(pmails))]
+			cn, cmail := names[rng.Intn(len(names))], mails[rng.Intn(len(mails))]
+			if cmail == "" {
+				cmail = "b@x"
+			}
+			switch rng.Intn(5) {
+			case 0:
+				lines = append(lines, fmt.Sprintf("%s <%s> <%s>", pn, pm, cmail))
+				note([]string{cmail}, []string{pn, pm})
+			case 1:
+				lines = append(lines, fmt.Sprintf("%s <%s> %s <%s>", pn, pm, cn, cmail))
+				if cn != "" {
+					note([]string{cmail, cn}, []string{pn, pm})
+				} else {
+					note([]string{cmail}, []string{pn, pm})
+				}
+			case 2:
+				lines = append(lines, fmt.Sprintf("%s <%s>", pn, cmail))
+				note([]string{cmail}, []string{pn})
+			case 3:
+				lines = append(lines, fmt.Sprintf("<%s> <%s>", pm, cmail))
+				note([]string{cmail}, []string{pm})
+			default:
+				lines = append(lines, "# comment", "")
+			}
+		}
+		mailmapText = strings.Join(lines, "\n") + "\n"
+		bo := st.NewEncodedObject()
+		bo.SetType(plumbing.BlobObject)
+		w, _ := bo.Writer()
+		w.Write([]byte(mailmapText))
+		w.Close()
+		bh, _ := st.SetEncodedObject(bo)
+		tree.Entries = append(tree.Entries, object.TreeEntry{Name: ".mailmap", Mode: 0100644, Hash: bh})
+	}
 	eo := st.NewEncodedObject()
-	(&object.Tree{}).Encode(eo)
+	tree.Encode(eo)
 	th, _ := st.SetEncodedObject(eo)
 	for i := 0; i < n; i++ {
 		cm := &object.Commit{Author: object.Signature{Name: names[rng.Intn(len(names))], Email: mails[rng.Intn(len(mails))]}, Message: fmt.Sprint(i), TreeHash: th}
@@ -60,7 +129,7 @@ func c16(rng *rand.Rand) string {
 				key = strings.ToLower(c.Author.String())
 			}
 			if prev, ok := ids[key]; ok && prev != id {
-				return "same email different id"
+				return fmt.Sprintf("same e-mail, different developers (commits %v, mailmap %q)", sigs(commits), mailmapText)
 			}
 			ids[key] = id
 		}
@@ -84,11 +153,25 @@ func c16(rng *rand.Rand) string {
 					}
 				}
 				got = g2
+				if withMailmap {
+					// a developer known from the mailmap only by e-mail has an empty name part in "names|emails": the
+					// empty token is layout, not an identity
+					strip := func(l []string) []string {
+						var o []string
+						for _, x := range l {
+							if x != "" {
+								o = append(o, x)
+							}
+						}
+						return o
+					}
+					want, got = strip(want), strip(got)
+				}
 				sort.Strings(want)
 				sort.Strings(got)
 				// got may contain "" from empty names/emails join
 				if strings.Join(want, ",") != strings.Join(got, ",") {
-					return fmt.Sprintf("desc mismatch id %d: want %q got %q (commits %v)", id, want, got, sigs(commits))
+					return fmt.Sprintf("desc mismatch id %d: want %q got %q (commits %v, mailmap %q)", id, want, got, sigs(commits), mailmapText)
 				}
 			}
 		}
@@ -398,11 +481,17 @@ type gitRepo = gitRepository
 
 func main() {
 	log.SetOutput(ioutil.Discard)
-	fs := map[string]func(*rand.Rand) string{"c16": c16, "c16merge": c16merge, "c16mergeS": c16mergeS, "c19": c19, "c11": c11, "c11ws": c11ws}
+	fs := map[string]func(*rand.Rand) string{"c16": c16, "c16mm": c16mm, "c16merge": c16merge, "c16mergeS": c16mergeS, "c19": c19, "c11": c11, "c11ws": c11ws}
 	hv.RunOracle(func(cs int64, extra []string) (desc string, class string, m string, tags []string) {
 		mode := extra[0]
 		classify := func() {
 			class = mode
+			if mode == "c16mm" {
+				tags = []string{"mailmap_plain"}
+				if mmChain {
+					class, tags = "mailmap-chained-or-conflicting", []string{"mailmap_chained_or_conflicting"}
+				}
+			}
 			if mode == "c16mergeS" {
 				class, tags = "c16merge", []string{"lists_well_formed"}
 				if sharedWithin {
